@@ -6,7 +6,7 @@ ROOT = os.path.dirname(os.path.dirname(os.path.abspath(__file__)))
 # id -> (technique, level text, level note, design_ref)
 CLAIMED = {
  "C01": ("proptest-generated programs + generated schedules run by a deterministic scheduler over the cfg-guarded sync shim; exhaustive linearizability (WGL) search and self-describing (unique power-of-two) increment sets",
-         "Exploration over schedules: 2-3 real threads run real library code one atomic step at a time in a generated order (random walk, PCT, window; injected spurious CAS failures); every history is checked for linearizability and against the subset rules of the statement. Samples interleavings, does not enumerate them.",
+         "Exploration over schedules: 2-3 real threads run real library code one atomic step at a time in a generated order (random walk, PCT, window; injected spurious CAS failures); every history is checked for linearizability and against the subset rules of the statement. Interleavings are sampled; in addition a sample of small programs is enumerated completely up to a bound on pre-emptions, and a stage on free-running OS threads repeats the programs without the scheduler (§8.1).",
          "Trusted: the scheduler and the sync shim (executions are sequentially consistent interleavings of the hooked operations).", "§3, §4 C01"),
  "C02": ("proptest-generated observe/flush/collect programs + generated schedules (deterministic scheduler); consistent-cut set oracle via unique power-of-two observations; happens-before (vector clock) monitor over the reported memory orderings",
          "Exploration over schedules plus a dynamic happens-before analysis of each explored execution: every snapshot must be one consistent cut, and every swap of the collector must be ordered by happens-before (already at the count hand-off gate) with all other accesses to the location. The HB monitor certifies the synchronisation pattern of explored executions; it does not enumerate weak-memory reorderings.",
@@ -24,22 +24,22 @@ CLAIMED = {
          "Exploration: generated scenarios run in the protobuf-backed build (in-process) and in a --no-default-features child process; gathered structure, text encodings and call outcomes must be identical.",
          "Trusted: the executor uses only API common to both data models; a build that disagrees with itself is reported as nondeterministic, not as a violation.", "§4 C16"),
  "C19": ("grammar-generated macro declarations (programs) compiled in batches against the working tree with generated drivers; backing-vector oracle with leaf-unique update amounts; byte-level shrinking by rebuild",
-         "Exploration over programs: declarations from a bounded grammar (<= 4 labels x 4 values) are compiled and run; every accessor path must address exactly its leaf's child. Case counts are two orders of magnitude lower than elsewhere because each batch costs a compiler run.",
+         "Exploration over programs: declarations from a bounded grammar (<= 4 labels x 4 values, plus per run a few of deployment size - thousands of leaves - and with 9-14 labels) are compiled and run; every accessor path (handle field path, get(enum), try_get, the inner struct of a hand-written thread_local, a second instance on a second vector) must address exactly its leaf's child. Case counts are two orders of magnitude lower than elsewhere because each batch costs a compiler run.",
          "Trusted: the code emitter of the harness (driver and expectation are generated from the same declaration record).", "§4 C19"),
- "C20": ("complete enumeration of the 108 macro arm x trailing-comma variants (generated wrapper file) x proptest-generated run-time inputs; explicit-constructor equivalence oracle",
-         "Exhaustive over macro arms, sampled over inputs: every arm is driven in every case; descriptor, buckets, target registry, handle identity and refusal are compared with the explicit calls.",
+ "C20": ("complete enumeration of the 110 macro arm x trailing-comma variants (generated wrapper file) x proptest-generated run-time inputs; explicit-constructor equivalence oracle",
+         "Exhaustive over macro arms, sampled over inputs: every arm is driven in every case; descriptor, buckets, target registry, handle identity, both kinds of refusal, and that every argument expression is evaluated exactly once, are compared with the explicit calls.",
          "Trusted: the arm table generator (gen/gen_c20_arms.py); only valid constructor arguments are generated.", "§4 C20"),
  "C04": ("proptest-generated families + independent text-format 0.0.4 parser round trip; append/concat metamorphic relations; libFuzzer in the thorough tier",
          "Exploration: generated metric families (adversarial help/label strings, every f64 class, all four printable types, custom and gathered) are encoded and read back by a parser written from the format description; the parsed record sequence must equal the one computed from the input. Samples the input space.",
          "Trusted: the reference parser (Appendix B of DESIGN.md) and the neutral family records read through the public getters.", "§4 C04"),
  "C05": ("proptest-generated request sequences + reference map model (one child per tuple via unique-bit updates); libFuzzer in the thorough tier",
          "Exploration: generated vector kinds, label-name lists and request sequences biased to boundary-shifted, permuted and repeated tuples, checked against a BTreeMap model after every request and at the end; samples the input space, does not exhaust it.",
-         "Trusted: the harness model; equality is up to 64-bit FNV collisions, which are not constructed.", "§4 C05"),
+         "Trusted: the harness model; equality is up to 64-bit FNV collisions (one known colliding pair is in the pools and reported as KNOWN-FINDING; none other is constructed).", "§4 C05"),
  "C06": ("proptest-generated register/unregister/gather histories (stateful) + reference admission model + twin/fresh-replica registries (metamorphic)",
          "Exploration: generated histories over overlapping collectors incl. multi-descriptor ones refused part-way; every result and every gather() is compared with a reference model and with registries that never saw the refused calls.",
          "Trusted: the admission model derived from the statement; self-inconsistent collectors are out of domain.", "§4 C06"),
  "C07": ("proptest-generated registry scenarios + model of the prescribed gather() result + rebuild-and-compare determinism (permuted registration, fresh hash seeds, fresh processes)",
-         "Exploration: generated scenarios are gathered and compared with the result the statement prescribes, then rebuilt 5 times under other registration orders / hash seeds and in other processes; all must be identical.",
+         "Exploration: generated scenarios (incl. composite collectors, collectors that gather a registry of their own, common labels named like own labels) are gathered and compared with the result the statement prescribes, then rebuilt 5 times under other registration orders / hash seeds and in other processes; all must be identical. A third of the cases then change the gathered registry (children, values, unregister / register) and compare every further gather with the model of its moment.",
          "Trusted: the scenario model; hash seeds are sampled (std RandomState per map / per process), not enumerated.", "§4 C07"),
  "C08": ("proptest-generated bucket lists and f64 observation sequences + acceptance predicate + naive count/sum reference; libFuzzer in the thorough tier",
          "Exploration: generated bucket configurations (half invalid) and observation sequences over every f64 class through Histogram, HistogramVec children and LocalHistogram, compared with a naive reference after generated collections.",
@@ -48,7 +48,7 @@ CLAIMED = {
          "Exploration: generated constructor arguments and registry prefix/common labels (hand-written adversarial pools plus a computed pool of every non-ASCII character whose Unicode case mapping is pure ASCII); Ok/Err must follow the two regular languages and the duplicate / le / help rules, and every gathered name must be valid and pairwise distinct per sample. In addition one finite sub-space is enumerated completely on every run: every Unicode scalar value as leading and as non-leading character of a metric name and of a label name (4 x 1 112 064 Desc::new calls).",
          "Trusted: the recognisers. One known finding (registry common label equal to a metric label) is reported as KNOWN-FINDING.", "§4 C09"),
  "C12": ("proptest-generated local/shared update, flush, reset, clone, drop, remove histories (stateful) + reference model per shared child object",
-         "Exploration: generated histories over up to 4 local handles of one shared counter / histogram / vector; shared values (also of detached children) and every local's pending data are compared with the model after every operation.",
+         "Exploration: generated histories over up to 4 local handles of one shared counter / histogram / vector (bursts of up to 4400 tuples per local vector, clone_from between handles of two children; thorough tier: one batch of 2^32+5 observations); shared values (also of detached children) and every local's pending data are compared with the model after every operation.",
          "Trusted: the model, which mirrors float addition order; single-threaded.", "§4 C12"),
  "C13": ("proptest-generated families incl. unset optional fields + hand-written proto2 wire decoder round trip; libFuzzer in the thorough tier",
          "Exploration: generated families of every MetricType are encoded and decoded by an independent wire decoder; framing, field numbers, wire types, UTF-8, values (bit-exact) and presence must match the input.",
@@ -57,8 +57,8 @@ CLAIMED = {
          "Exploration: generated scenarios gathered 6 times; every sample must carry exactly the payload of its family's type and read as the metric's real value. The mixed-kind class is a known finding (KNOWN-FINDING), anything else is a violation.",
          "Trusted: the scenario's knowledge of each metric's real value; payload presence observable in the protobuf build only.", "§4 C14"),
  "C15": ("proptest-generated descriptor pairs from adversarial pools + independently computed structural keys <=> hash equality; registry verdicts follow the keys",
-         "Exploration: generated pairs (boundary shifts, order/route changes, const-vs-variable placement) through Desc::new, Opts and HistogramOpts.",
-         "Trusted: the structural keys; up to 64-bit hash collisions.", "§4 C15"),
+         "Exploration: generated pairs (boundary shifts between name / values and between help / label names, order/route changes, const-vs-variable placement, long components and structural variants of them, length-wrap twins, case and white-space variants) through Desc::new, Opts and HistogramOpts.",
+         "Trusted: the structural keys; up to 64-bit hash collisions (one known colliding pair is in the pools and reported as KNOWN-FINDING).", "§4 C15"),
  "C17": ("proptest-generated arbitrary arguments for every Result-returning API + catch_unwind no-panic oracle + documented Ok/Err expectations; libFuzzer in the thorough tier",
          "Exploration: 1-8 generated calls per case over 27 fallible entry points with arbitrary Unicode, cardinalities, f64 parameters, arbitrary families and failing writers.",
          "Trusted: the recognisers of C08/C09 for the Ok/Err expectation; documented-panic entry points are not called.", "§4 C17"),
